@@ -4,11 +4,13 @@ lib/Crypto/Cipher/_pkcs1_oaep_decode.py:oaep_decode.                            
   PKCS1OAEP_Cipher.encrypt   ValueError iff mLen > k - 2 hLen - 2 (7.1.1 step 1b); C = I2OSP(OS2IP(EM)^e mod n, k) with
                              EM = spec.rfc8017.oaep_em (7.1.1 step 2: lHash = Hash(L), DB = lHash || PS || 01 || M, seed = the next draw
                              of the caller's randfunc tape, dbMask = MGF(seed, k - hLen - 1), seedMask = MGF(maskedDB, hLen));
+                             RSAEP's range error is PROVED impossible (EM starts with 00, so OS2IP(EM) < 256^(k-1) <= n);
                              the message buffer is not modified (frame `modifies=[]`, bytes / bytearray / memoryview)
   PKCS1OAEP_Cipher.decrypt   "decryption error" = ValueError iff len(C) != k or k < 2 hLen + 2 (7.1.2 step 1) or c >= n (RSADP) or
                              not spec.rfc8017.oaep_ok(Y, lHash, DB) (step 3g) with EM = I2OSP(c^d mod n, k) = Y || maskedSeed || maskedDB,
                              seed = maskedSeed xor MGF(maskedDB, hLen), DB = maskedDB xor MGF(seed, k - hLen - 1);
-                             result == M == spec.rfc8017.oaep_message(lHash, DB); a key without private half never decrypts (TypeError).
+                             result == M == spec.rfc8017.oaep_message(lHash, DB); a key without private half never decrypts (it
+                             raises TypeError, or ValueError for a ciphertext / key of the wrong size).
                              The code tests `k < hLen + 2` only; for hLen + 2 <= k < 2 hLen + 2 the RFC outcome is PROVED through
                              the decoder (oaep_decode returns -1 for em_len < 2 hLen + 2).
   oaep_decode (wrapper)      == spec.rfc8017.oaep_decode_c, given the ASSUMED contract of the C function (DESIGN.md C07; proved on
@@ -18,8 +20,9 @@ lib/Crypto/Cipher/_pkcs1_oaep_decode.py:oaep_decode.                            
 Hash, xor: uninterpreted (sig_common).  Mask generation function `self._mgf`: the abstract caller-supplied `abs.Mgf`
 (spec.rfc8017.MGF, uninterpreted, ASSUMED to be a function of its arguments returning `length` octets) or the closure
 `lambda x, y: MGF1(x, y, self._hashObj)` that PKCS1OAEP_Cipher.__init__ builds (calls go through the PROVED contract of pss.MGF1);
-in clauses `self._mgf(seed, n)` denotes the value of that call.  RsaKey._encrypt: proved contract of sig_common.add_rsa_key (unit of
-the RSA area); RsaKey._decrypt_to_bytes: ASSUMED == I2OSP(c^d mod n, k).
+the spec functions take the mask generation function as a callable.  RsaKey._encrypt: contract of sig_common.add_rsa_key (proved
+by the RSA area); RsaKey._decrypt_to_bytes: ASSUMED == I2OSP(c^d mod n, k).
+Units: one per (python type of the buffer argument) x (configuration of the object: mgfunc given / default).
 """
 from vf.pyvc.contracts import Contract, ClassContract
 from vf.pyvc.values import Ref
@@ -132,3 +135,41 @@ def units(prop, tier):
             out.append(pyvc_unit(prop, 'enc.oaep.encrypt.%s.mgf_%s' % (buf, mgf), (lambda b=buf, m=mgf: registry(b, m)), [CIPHER + '.encrypt']))
             out.append(pyvc_unit(prop, 'enc.oaep.decrypt.%s.mgf_%s' % (buf, mgf), (lambda b=buf, m=mgf: registry(b, m)), [CIPHER + '.decrypt']))
     return out
+
+
+# ======================================================================================================================
+# Evidence of strength (tools/mut.py, property C07; every mutant listed gave exit 1 on the named obligation(s), every benign
+# rename exit 0).  Obligation ids are prefixed C07.Cipher.PKCS1_OAEP.PKCS1OAEP_Cipher. / C07.Cipher._pkcs1_oaep_decode.
+#
+#   decrypt (units decrypt.bytes.mgf_*)
+#              `res <= 0` -> `res < -1` (check dropped)     decrypt.raises_iff.ValueError.if, decrypt.ensures.rfc8017_7_1_2
+#              db[res:] -> db[res-1:]                       decrypt.ensures.rfc8017_7_1_2
+#              em[1:hLen+1] -> em[0:hLen]                   decrypt.ensures.rfc8017_7_1_2, decrypt.raises_iff.ValueError.if / .only_if
+#              `len(ciphertext) != k` dropped               decrypt.raises_iff.ValueError.if
+#              rename seedMask -> sm                        exit 0
+#      EQUIVALENT mutants (exit 0, as they must: the observable behaviour does not change):
+#              `res <= 0` -> `res < 0`       the decoder returns -1 or a value >= hLen + 1 >= 2, never 0
+#              `or k < hLen+2` dropped       for k < hLen + 2 the code then fails in strxor (length mismatch, ValueError) or in
+#                                            oaep_decode (em_len < 2 hLen + 2 -> -1 -> ValueError): the outcome stays ValueError
+#   encrypt (units encrypt.bytes.mgf_*)
+#              `ps_len < 0` -> `ps_len <= 0`                encrypt.raises_iff.ValueError.only_if
+#              b'\x01' -> b'\x02' in DB                     encrypt.ensures.rfc8017_7_1_1
+#              mgf(ros, k-hLen-1) -> (ros, k-hLen)          encrypt.raises_iff.ValueError.only_if (strxor length mismatch)
+#              em = 00 || maskedSeed || maskedDB swapped    encrypt.ensures.rfc8017_7_1_1
+#              rename ros -> seed0                          exit 0
+#   oaep_decode (wrapper)
+#              c_size_t(len(lHash)) -> (len(lHash) + 1)     oaep_decode.call_pre.hLen_len_lHash
+#              c_uint8_ptr(lHash) -> c_uint8_ptr(db)        oaep_decode.call_pre.hLen_len_lHash, oaep_decode.ensures.value
+#              rename ret -> rv                             exit 0
+#   MGF1: see contracts/sig_pss.py (unit sig.pss.MGF1 is registered under C04 and C07).
+#
+# ASSUMED: the C function oaep_decode (DESIGN.md C07; CVC: contracts/c/pkcs1_decode.py); ctypes glue c_size_t / c_uint8_ptr
+#   (contracts/rawapi.py); CPython len() <= 2^63 - 1 (option ssize_len, wrapper only); abs.Hash, strxor, long_to_bytes / bytes_to_long,
+#   RsaKey._decrypt_to_bytes, caller-supplied mgfunc and randfunc as in contracts/sig_pss.py; opt-in arithmetic facts int_lemmas (encrypt).
+#
+# NOT PROVED:
+#   PKCS1OAEP_Cipher.__init__ / new (defaults hashAlgo = Crypto.Hash.SHA1, mgfunc = MGF1 over self._hashObj, label copy): the default
+#       hash is the MODULE Crypto.Hash.SHA1; stating "== SHA-1" needs a link between that module value and the abstract hash objects of
+#       sig_common (a model of the hash modules as values), which this area does not have.  The class contract takes the state
+#       __init__ establishes (a hash object/module, one of the two kinds of mask generation function, a bytes label) as given.
+#   Round trip decrypt(encrypt(M)) == M: needs xor cancellation facts for the uninterpreted xor (x ^ m ^ m == x) and m^e^d = m (C14/C05).
